@@ -68,6 +68,7 @@ CHECK = {
     "search_seeds": {"quick": 1, "thorough": 2},
     "lean_sources": ["ClusterVerif/Model/C17.lean", "ClusterVerif/Spec/C17.lean", "ClusterVerif/Lemmas/C17.lean", "ClusterVerif/Lemmas/C17Step.lean",
                      "ClusterVerif/Model/C17Fault.lean", "ClusterVerif/Spec/C17Fault.lean", "ClusterVerif/Lemmas/C17Fault.lean",
+                     "ClusterVerif/Model/C17Depart.lean", "ClusterVerif/Lemmas/C17Depart.lean",
                      "ClusterVerif/Gen/C17.lean", "ClusterVerif/Model/Pin.lean"],
     "rule": "consensus suite: scripts of 4-14 steps over 1-4 real raft.Consensus peers on loopback (bootstrap of 1-3 peers; pin/unpin, "
             "start+add+ready of a staging peer, add of a present peer, removal of an absent / other / own / leader / last peer, restart, "
@@ -89,7 +90,8 @@ CHECK = {
                      "fault injection of suite fault: the harness' Consensus RPC endpoint (refuse / execute-then-fail the caller's forwards), OpenCensus span names "
                      "consensus/redirectToLeader, consensus/raft/AddPeer, consensus/RemovePeer used to count leader-side attempts and to time the leadership transfer",
                      "harness RPC services standing in for the Cluster RPC API at consensus level; StoreMonitor / FakeIPFS at cluster level",
-                     "go/ast skeleton extractor (harness/extract_c17) for the statement order of the anchored functions"],
+                     "go/ast skeleton extractor (harness/extract_c17) for the statement order of the anchored functions and for the "
+                     "Shutdown start sites of cluster.go (enclosing conditions, domination by `c.removed = true` / `c.readyB = true`)"],
     "assumptions": ["consensus / cluster / fault scripts are sequential: a step starts after the previous one returned and all members caught up; "
                     "conc phases and the join burst are concurrent, observed at sync points",
                     "fault plans: one fault kind per attempt, the forwarded call's own retry loop on the leader is healthy; one partition shape (the leader alone, "
@@ -97,6 +99,9 @@ CHECK = {
                     "C17_conc_full (what the concurrent model admits meets the clauses) is stated, not proved: validated by suite conc",
                     "steps are issued only while a quorum of voters is running (otherwise the harness reports the script inconclusive)",
                     "the Raft data folder is observed after Clean: no raft.db, no snapshot; rotated copies are counted next to it",
+                    "departure theorems speak of a removed peer that is running and is given its watchPeers round: a peer stopped by the operator "
+                    "between its removal by another member and that round, or removed while down, keeps its data (model witnesses "
+                    "stop_before_watch_round_keeps_data; not exercised on real peers)",
                     "pins in scripts carry no origins (not decodable from the Raft log: recorded finding K01 of C08/C01)"],
 }
 META = {
@@ -110,7 +115,12 @@ META = {
             "outcome the model allows satisfies every clause of the property written from its text. Failure arms: the retry loops with the trace of their attempts "
             "(error <-> no attempt seen to succeed; acknowledged -> committed, the log untouched or one entry longer; a failed call without a lost reply changes nothing; "
             "a retried AddPeer whose first attempt committed with its answer lost is acknowledged and adds once), fault_allowed_holds for every fault plan, "
-            "interleaved_log_agree for any interleaving of configuration and pin entries, join_allowed_holds for a joiner during a burst of pins. The model is tied to the code by running seeded scripts on real Raft peers (and full clusters) and comparing outcomes, peersets "
+            "interleaved_log_agree for any interleaving of configuration and pin entries, join_allowed_holds for a joiner during a burst of pins. "
+            "Departure (round 8): every place of cluster.go that starts Cluster.Shutdown is regenerated as a structure (function, enclosing conditions, "
+            "whether `c.removed = true` dominates it) and interpreted by a one-peer state machine over histories of removals by others, self-removals, "
+            "watchPeers rounds, operator stops and writes: for ANY safe site list (today's is, by decide) a stopped non-member holds no consensus data "
+            "(departure_cleans), a removed running peer stops and cleans at its next answered watch round, and every self-removal site that starts "
+            "Shutdown without the flag is refuted with the history 'the peer removes itself' (unflagged_self_removal_refuted, early_shutdown_keeps_data = seeded C17f). The model is tied to the code by running seeded scripts on real Raft peers (and full clusters) and comparing outcomes, peersets "
             "and pinsets of every member with the model, by evaluating the Lean property clauses on the implementation's own outputs, and by a go/ast "
             "skeleton of the anchored functions over which the guard/ordering facts are re-checked by `decide`.",
     "note": "Partial by nature: agreement is hashicorp/raft's (trusted). Trusted: Lean kernel, hand-written model/spec, harness, hook file "
